@@ -540,7 +540,10 @@ impl RainDbIterator for DatabaseIterator {
     }
 
     fn next(&mut self) -> Option<(&Self::Key, &Vec<u8>)> {
-        assert!(self.is_valid);
+        if !self.is_valid {
+            // Like the other iterators of this crate: there is nowhere to step to
+            return None;
+        }
         self.record_read_error();
 
         if self.direction == DbIterationDirection::Backward {
@@ -586,7 +589,10 @@ impl RainDbIterator for DatabaseIterator {
     }
 
     fn prev(&mut self) -> Option<(&Self::Key, &Vec<u8>)> {
-        assert!(self.is_valid);
+        if !self.is_valid {
+            // Like the other iterators of this crate: there is nowhere to step to
+            return None;
+        }
         self.record_read_error();
 
         if self.direction == DbIterationDirection::Forward {
